@@ -75,6 +75,9 @@ class NB:
         dt = X["dtype"]
         kh = d(st.one_of(st.integers(1, 3), st.integers(1, 5), st.sampled_from([1, 3])))
         kw = d(st.one_of(st.integers(1, 3), st.integers(1, 5), st.sampled_from([1, 3])))
+        if self.profile in ("cascade", "convs", "heavy") and d(st.integers(0, 3)) == 0:
+            # kernels that are clearly taller than wide or wider than tall (the two axes must not be confused anywhere between the scheduler and the registers)
+            kh, kw = d(st.sampled_from([(5, 1), (7, 1), (9, 3), (1, 5), (1, 7), (3, 9), (7, 2)]))
         sh, sw = (d(st.sampled_from([1, 1, 2, 3])), d(st.sampled_from([1, 1, 2, 3]))) if force_stride is None else force_stride
         if self.profile == "convs" and d(st.booleans()):
             sh = sw = 1
@@ -101,6 +104,9 @@ class NB:
             qdim = 3
         else:
             oc = d(st.one_of(st.integers(1, 8), st.integers(1, 40), st.sampled_from([8, 16, 17, 32, 33])))
+            if self.profile == "heavy":
+                # weight-heavy, compute-light layers: the weights are streamed in several depth slices through the double buffer
+                oc = d(st.sampled_from([48, 72, 96, 112, 120, 144, 200]))
             wshape = [oc, kh, kw, c]
             qdim = 0
         wdt = "uint8" if dt == "uint8" else "int8"
@@ -710,6 +716,8 @@ def network(profile="exact", max_ops=6, dtypes=("int8", "int8", "int8", "uint8",
                                              [1, small, 1, big_n], [1, 2, big_n // 2, small]]))
             if int(math.prod(in_shape)) > 300000:
                 in_shape = [d_ if d_ != small else 1 for d_ in in_shape]
+        if profile == "heavy":
+            in_shape = [1, draw(st.sampled_from([2, 4, 6, 8])), draw(st.sampled_from([2, 4, 8])), draw(st.sampled_from([16, 32, 48, 64, 96]))]
         if profile == "head":
             # classifier heads: a 1x1 feature map (what is left after global pooling) under 1x1 convolutions (rewritten to fully connected operators) and FC layers
             in_shape = [1, 1, 1, draw(st.one_of(st.integers(1, 40), st.sampled_from([16, 17, 32, 64, 128])))]
@@ -844,6 +852,9 @@ def network(profile="exact", max_ops=6, dtypes=("int8", "int8", "int8", "uint8",
         if profile == "luts":  # many table-driven activations in one NPU subgraph: LUT slot allocation, eviction and re-use (tables repeat because quantisations repeat)
             menu = ["logistic", "tanh", "hswish", "lrelu", "logistic", "tanh", "hswish", "lrelu", "add_const", "relu", "conv", "softmax", "softmax", "softmax", "exp", "gelu", "sqrt", "log", "rsqrt"]
             n_ops = draw(st.integers(4, max(max_ops, 4)))
+        if profile == "heavy":
+            menu = ["conv", "conv", "conv", "conv", "relu", "add_const", "maxpool"]
+            n_ops = draw(st.integers(2, 4))
         if profile == "head":
             menu = ["conv", "conv", "conv", "fc", "relu", "add_const"]
             n_ops = draw(st.integers(1, 3))
